@@ -3,6 +3,7 @@ import Proofs.C05Frame
 import Proofs.C05Rows
 import Proofs.C05Dispatch
 import Proofs.C05Value
+import Proofs.C05Seq
 /-!
 # C05 — no bytes from the network can crash the application
 
@@ -329,5 +330,63 @@ theorem C05_retry_depth_unbounded (n : Nat) :
   C05Dispatch.C05_retry_depth_unbounded n
 
 end dispatch
+
+/-! ## 6. sequences of answers on the prepare / execute / unprepared / re-prepare / paging paths
+
+Model/PrepLife.lean: the prepared-statement cache of a connection with any number of concurrent callers
+(queries, paging queries, batches) as a state machine whose inputs are the peer's answers — any of the 18
+frame kinds or a malformed body, to any pending PREPARE / EXECUTE / BATCH, in any order, plus frames on the
+event stream. A cache entry may be absent, in flight, finished with a statement, or finished WITHOUT one; the
+last state is what `evictPreparedID` would dereference (`Res.crash`). Lemmas in Proofs/C05Seq.lean; the
+machine is compared step by step (frames at the peer, returns of the calls, cache contents through the hook
+VerifC05dStmtCache) with a real Session in child processes (ops `seq`, `seqinv`). -/
+section sequences
+open PrepLife
+
+/-- FULL: for every set of callers and EVERY sequence of answers, no step of the machine reaches the nil
+    dereference in evictPreparedID, and in the state reached every cached flight that is finished holds a
+    prepared statement. -/
+theorem C05_prepcache_total (cs : List (CKind × List Nat)) (is : List Input) :
+    (run PArm.removes (init cs) is).crashed = false ∧ Inv (run PArm.removes (init cs) is).state.core :=
+  C05Seq.run_safe C05Seq.removes_ok is (init cs) C05Seq.init_inv
+
+/-- FULL: one step from ANY state that satisfies the invariant (not only the reachable ones) neither crashes
+    nor breaks it. -/
+theorem C05_prepcache_step (s : State) (i : Input) (h : Inv s.core) :
+    step PArm.removes s i ≠ .crash ∧ ∀ s' log, step PArm.removes s i = .next s' log → Inv s'.core :=
+  ⟨C05Seq.step_no_crash _ i h, fun _ _ he => C05Seq.step_inv C05Seq.removes_ok h he⟩
+
+/-- FULL (spec-backed op `seqinv`): the model's answer is `ok` for every scenario, so an implementation
+    answer `bad:nil-entry` (a finished flight without statement seen in the cache at a quiescent point) or
+    `crash:..` is a failing input. -/
+theorem C05_seqinv_ok (cs : List (CKind × List Nat)) (is : List Input) :
+    invAnswer PArm.removes (init cs) is = "ok" :=
+  C05Seq.invAnswer_ok C05Seq.removes_ok is (init cs) C05Seq.init_inv
+
+/-- the same for every removal table in which each arm that stores an error also removes the key: that is the
+    whole of what the safety of evictPreparedID needs from prepareStatement -/
+theorem C05_prepcache_total_of_removal (rm : PArm → Bool) (hrm : ∀ a, a.result = .failed → rm a = true)
+    (cs : List (CKind × List Nat)) (is : List Input) :
+    (run rm (init cs) is).crashed = false :=
+  (C05Seq.run_safe hrm is (init cs) C05Seq.init_inv).1
+
+/-- ... and the hypothesis is needed: forget the removal in ONE arm (`default:`, a well-formed frame of an
+    unexpected kind) and six answers crash the machine — statement prepared, two executions in flight, the
+    first answered UNPREPARED, the re-prepare answered RESULT/Void, the second answered UNPREPARED. The cached
+    entry is then `failed` (the state is representable, the invariant is not vacuous). -/
+theorem C05_prepcache_removal_needed :
+    (run C05Seq.rmForgetDefault (init [(.query, [0]), (.query, [0])])
+      [.start 0, .pans 0 (.frame .resultPrepared 1 1), .start 1, .xans 0 (.frame .unprepared 1 false),
+       .pans 0 (.frame .resultVoid 0 1), .xans 1 (.frame .unprepared 1 false)]).crashed = true ∧
+    invOK (run C05Seq.rmForgetDefault (init [(.query, [0])])
+      [.start 0, .pans 0 (.frame .resultVoid 0 1)]).state.core 3 = false := by
+  constructor <;> decide
+
+example : (run PArm.removes (init [(.query, [0]), (.query, [0])])
+      [.start 0, .pans 0 (.frame .resultPrepared 1 1), .start 1, .xans 0 (.frame .unprepared 1 false),
+       .pans 0 (.frame .resultVoid 0 1), .xans 1 (.frame .unprepared 1 false)]).state.core.cache 0 = some 2 := by
+  decide
+
+end sequences
 
 end C05
